@@ -24,7 +24,7 @@ RULE = (
     "actually fired or a check actually failed"
 )
 BOUNDS = {
-    "quick": {"preemptions_worker_stages": 1, "preemptions_other": 0, "occurrence": [1, 2], "max_exec_per_item": 150},
+    "quick": {"preemptions_worker_stages": 1, "preemptions_other": 0, "occurrence": [1, 2], "max_exec_per_item": 300},
     "thorough": {"preemptions_worker_stages": 2, "preemptions_other": 1, "occurrence": [1, 2, 3], "max_exec_per_item": 5000},
 }
 BUDGET_S = {"quick": 140, "thorough": 3300}
@@ -56,6 +56,8 @@ def items(tier: str, seed: int) -> list[dict]:
         base = {"doc": "unit2", "phases": ["fuzzing"], "workers": 1, "max_failures": None, "cof": False, "behaviour": "ok",
                 "fault": None, "p": b["preemptions_other"], "e": 0, "max_examples": 2, "unique": False, "ctrl_c": False}
         base.update(kw)
+        if base["workers"] > 1 and len(base["phases"]) > 1 and tier == "quick":
+            base["p"] = 0  # several unit phases x 2 workers: every non-preemptive schedule only (pre-emptions: single-phase items)
         base["phases"] = ["probing"] + base["phases"]  # the CLI always enables the probing phase
         out.extend(ee.sharded(base, 4 if base["workers"] > 1 and base["p"] > 0 else 1))
 
@@ -297,6 +299,7 @@ def check_item(item: dict, tier: str) -> Result:
         if last_stats.capped:
             res.exhaustive = False
             res.count("items_capped")
+            res.count("capped:" + "+".join(item["phases"]) + f":w{item['workers']}:p{item['p']}:" + str((item.get("fault") or {}).get("stage")))
     return res
 
 
